@@ -19,6 +19,8 @@ Mirrors (ast-grep 0.37.0)
 * `crates/lsp/src/lib.rs:198-221,306-345`     `get_diagnostics`, `compute_all_fixes`,
 * `crates/config/src/rule_config.rs:195-200`  `RuleConfig::get_message`,
 * `crates/config/src/rule_collection.rs:81-97` `RuleCollection::try_new` (drops `severity: off`),
+* `crates/config/src/rule_collection.rs:99-126` `get_rule_from_lang` / `for_path` (the rules of the
+                                              file's language),
 * `crates/cli/src/scan.rs:194-224,228-291`    `ScanWithConfig::produce_item`, `ScanStdin`,
 * `crates/cli/src/print/cloud_print.rs:84-108` GitHub annotations.
 
@@ -46,10 +48,13 @@ structure Variant where
   lspOuterFirst : Bool
   /-- `scan --stdin` drops `severity: off` rules (pinned: it runs them) -/
   stdinFiltersOff : Bool
+  /-- `scan --stdin` drops rules written for another language than the one stdin is parsed as
+  (pinned: it runs them on the foreign tree) -/
+  stdinFiltersLang : Bool
 deriving DecidableEq, Repr
 
-def Variant.pinned : Variant := ⟨false, false, false, false⟩
-def Variant.fixed : Variant := ⟨true, true, true, true⟩
+def Variant.pinned : Variant := ⟨false, false, false, false, false⟩
+def Variant.fixed : Variant := ⟨true, true, true, true, true⟩
 
 /-- all results, or `none` when one of them is `none` (a panic anywhere aborts the front end) -/
 def allSome {α : Type} : List (Option α) → Option (List α)
@@ -234,6 +239,11 @@ structure FRule where
   message : Bytes          -- the message template
   note : Option Bytes
   keys : List Bytes        -- names of the rule's transformations
+  /-- the rule is written for another language than the document's (the language of the file;
+  for `scan --stdin` the language stdin is parsed as, i.e. the first rule's).  The matches that
+  come with a foreign rule are what its matcher reports on the document's tree: the numeric kind
+  ids of another grammar compared with this one's -/
+  foreign : Bool := false
 deriving DecidableEq, Repr
 
 /-- one match of a rule: the node and what the message template sees of its environment -/
@@ -268,14 +278,27 @@ def findingsOfRules (src : Bytes) (rs : List RuleMatches) : Option (List Finding
 /-- `RuleCollection::try_new`: `severity: off` rules are not registered -/
 def enabledRules (rs : List RuleMatches) : List RuleMatches := rs.filter fun rm => rm.1.sev != .off
 
-/-- `scan` on a file (`ScanWithConfig`), every JSON style: the registered rules' matches -/
-def scanFindings (src : Bytes) (rs : List RuleMatches) : Option (List Finding) :=
-  findingsOfRules src (enabledRules rs)
+/-- `RuleCollection::for_path` / `get_rule_from_lang`: the rules written for the document's language -/
+def ownRules (rs : List RuleMatches) : List RuleMatches := rs.filter fun rm => !rm.1.foreign
 
-/-- `scan --stdin` (`ScanStdin`): the rules of `--rule`/`--inline-rules` as given; the text is parsed
-in the language of the first rule -/
+/-- the rules a front end that works on a file applies to it: registered, and of the file's language -/
+def fileRules (rs : List RuleMatches) : List RuleMatches := ownRules (enabledRules rs)
+
+/-- `scan` on a file (`ScanWithConfig`), every JSON style: the matches of the registered rules of the
+file's language -/
+def scanFindings (src : Bytes) (rs : List RuleMatches) : Option (List Finding) :=
+  findingsOfRules src (fileRules rs)
+
+/-- the rules `ScanStdin::parse_stdin` hands to the combined scan: those of `--rule`/`--inline-rules`;
+the text is parsed in the language of the first rule.  Pinned code: all of them; with FIX_C09 the
+`filter` drops `severity: off` rules and rules of another language than the first rule's -/
+def stdinRules (v : Variant) (rs : List RuleMatches) : List RuleMatches :=
+  let rs₁ := if v.stdinFiltersOff then enabledRules rs else rs
+  if v.stdinFiltersLang then ownRules rs₁ else rs₁
+
+/-- `scan --stdin` (`ScanStdin`) -/
 def stdinFindings (v : Variant) (src : Bytes) (rs : List RuleMatches) : Option (List Finding) :=
-  findingsOfRules src (if v.stdinFiltersOff then enabledRules rs else rs)
+  findingsOfRules src (stdinRules v rs)
 
 inductive GhLevel where
   | error | warning | notice
@@ -293,11 +316,13 @@ def githubOfRule (src : Bytes) (rm : RuleMatches) : Option (List (Bytes × GhLev
 
 def githubFindings (src : Bytes) (rs : List RuleMatches) :
     Option (List (Bytes × GhLevel × Nat × Nat × Bytes)) :=
-  (allSome ((enabledRules rs).map (githubOfRule src))).map List.flatten
+  (allSome ((fileRules rs).map (githubOfRule src))).map List.flatten
 
 /-- `sg test`, a `valid` case: `find(rule)` on the parsed case, no suppression comments applied;
 `true` = the case passes. Rules are looked up in the `RuleCollection`, so an `off` rule is
-"Configuration not found" (`none`) -/
+"Configuration not found" (`none`).  The test runner does not select rules by language: a case
+has no language of its own and is parsed in the language of the rule under test, so `ms` are the
+rule's matches on THAT parse (for a rule that is not foreign: its matches on the document) -/
 def testVerdictValid (r : FRule) (ms : List FMatch) : Option Bool :=
   if r.sev = .off then none else some ms.isEmpty
 
@@ -324,8 +349,9 @@ def lspFindingsOfRule (src : Bytes) (rm : RuleMatches) : Option (List LspFinding
     fs.map fun f => { id := f.id, start := f.start, stop := f.stop,
                       message := lspMessage rm.1 f.message, severity := lspSeverity rm.1.sev }
 
-/-- `Backend::get_diagnostics`: the rules of the `RuleCollection` (no `off` rules) -/
+/-- `Backend::get_diagnostics`: the rules of the `RuleCollection` (no `off` rules) `for_path` of
+the document (no rules of another language) -/
 def lspDiagnostics (src : Bytes) (rs : List RuleMatches) : Option (List LspFinding) :=
-  (allSome ((enabledRules rs).map (lspFindingsOfRule src))).map List.flatten
+  (allSome ((fileRules rs).map (lspFindingsOfRule src))).map List.flatten
 
 end AGV
